@@ -93,7 +93,7 @@ func init() {
 			"is outside the analysed module); stores into the cached tree made inside vitess itself, through reflection, through sub-objects copied from the cached tree into a freshly allocated node, or by " +
 			"packages outside the four listed (sql/procedures rewrites procedure-body statements, sql/stats freshly parsed column types: listed as information); idempotence of the named A1 exceptions is argued by reading, not decided; " +
 			"unused-binding accounting; the name scheme v1…vN shared by parser and converters; plan caches (C11) and session snapshot freshness (C17).",
-		Technique: "who-may-write over go/types with allocation-site freshness + caller-copy resolution; CFG all-paths store-or-fail and never-returns-after-absent; who-reads/who-builds of the bind context; gate facts on CFG edges; data-dependence closure for forwarding",
+		Technique: "who-may-write over go/types with allocation-site freshness + caller-copy resolution; CFG all-paths store-or-fail and never-returns-after-absent; who-reads/who-builds of the bind context; gate facts on CFG edges; data-dependence closure for forwarding; keyed-by-parameter and parser-entry-point origin rules on the session cache",
 		Run: func(c *Ctx) {
 			runC12Ast(c, c12RepoAst(), map[string]int{"C12-A1": 10, "C12-A2": 0})
 			runC12Bind(c, c12RepoBind())
